@@ -78,6 +78,19 @@ pub fn replay(args: &[String]) {
                 s.eval(None);
             }
         }
+        // State::inc is "add 1" on the state's serial, across the wrap as well, and leaves the session alone
+        for base in [a, b, 0xFFFF_FFFF, 0xFFFF_FFFE, 0x7FFF_FFFF] {
+            let r = guarded(|| {
+                let mut st = rpki::rtr::state::State::from_parts(0x1234, Serial(base));
+                st.inc();
+                (st.session(), st.serial().0)
+            });
+            match r {
+                Ok((0x1234, n)) if n == base.wrapping_add(1) && cmp_obs(base, n) == Ok("lt") => {}
+                Ok((sess, n)) => s.violation("inc:value", format!("State(session 0x1234, serial {base}).inc() gives session {sess:#x} serial {n}"), c.clone()),
+                Err(m) => s.violation("inc:panic", format!("State::inc at serial {base} panicked: {m}"), c.clone()),
+            }
+        }
         // the largest permitted increment, natively (2^31-1 is not a multiple of 2^(32-W))
         for base in [a, b] {
             match guarded(|| Serial(base).add(0x7FFF_FFFF)) {
